@@ -31,6 +31,8 @@ def _check_byte(v):
 def _items_of(x):
     if isinstance(x, (SymBytes, SymByteArray)):
         return list(x._items)
+    if isinstance(x, SymMemView):
+        return x._current()
     if isinstance(x, (_rbytes, _rbytearray, memoryview)):
         return list(_rbytes(x))
     return None
@@ -66,6 +68,80 @@ def _from_args(args, kwargs, what):
     except TypeError:
         raise TypeError("cannot convert %r object to %s" % (type(src).__name__, what))
     return [_check_byte(b) for b in seq]
+
+
+class SymMemView:
+    """Read-only memoryview over a list that somebody else owns and may overwrite (the internal buffer of a
+    BufferedWriter, a caller's bytearray): every access sees the *current* content, slices alias the same
+    memory, exactly like the memoryview CPython's buffered writer hands to raw.write()."""
+    __slots__ = ("_base", "_start", "_stop")
+
+    def __init__(self, base, start, stop):
+        self._base, self._start, self._stop = base, start, stop
+
+    def _current(self):
+        return list(self._base[self._start:self._stop])
+
+    def __len__(self):
+        return self._stop - self._start
+
+    def __iter__(self):
+        return iter(self._current())
+
+    def __bool__(self):
+        return self._stop > self._start
+
+    def __getitem__(self, i):
+        n = self._stop - self._start
+        if isinstance(i, slice):
+            a, b, st = i.indices(n)
+            if st != 1:
+                return mkbytes(self._current()[i])
+            b = max(a, b)
+            return SymMemView(self._base, self._start + a, self._start + b)
+        i = i.__index__()
+        if i < 0:
+            i += n
+        if not 0 <= i < n:
+            raise IndexError("index out of bounds on dimension 1")
+        return self._base[self._start + i]
+
+    def __eq__(self, o):
+        return mkbytes(self._current()) == o
+
+    def __ne__(self, o):
+        return mkbytes(self._current()) != o
+
+    __hash__ = None
+    readonly = True
+    itemsize = 1
+    ndim = 1
+    format = "B"
+
+    @property
+    def nbytes(self):
+        return len(self)
+
+    def tobytes(self):
+        return mkbytes(self._current())
+
+    def __bytes__(self):
+        return _rbytes(b.__index__() for b in self._current())
+
+    def tolist(self):
+        return self._current()
+
+    def hex(self, *a):
+        return bytes(self).hex(*a)
+
+    def release(self):
+        pass
+
+    def __enter__(self):
+        return self
+
+    def __exit__(self, *a):
+        return False
 
 
 class _Common:
@@ -275,8 +351,29 @@ class bytearray_(metaclass=_ByteArrayMeta):
         return SymByteArray(list(_rbytes.fromhex(s)))
 
 
+class _MemViewMeta(type):
+    def __instancecheck__(cls, inst):
+        return isinstance(inst, (memoryview, SymMemView))
+
+    def __subclasscheck__(cls, sub):
+        return sub is cls or issubclass(sub, (memoryview, SymMemView))
+
+
+class memoryview_(metaclass=_MemViewMeta):
+    """Stand-in for the builtin name `memoryview` inside loaded canopen modules."""
+
+    def __new__(cls, obj):
+        if isinstance(obj, SymMemView):
+            return obj
+        if isinstance(obj, SymByteArray):
+            return SymMemView(obj._items, 0, len(obj._items))      # aliases as long as the length is kept
+        if isinstance(obj, SymBytes):
+            return SymMemView(list(obj._items), 0, len(obj._items))
+        return memoryview(obj)
+
+
 def is_byteslike(x):
-    return isinstance(x, (_rbytes, _rbytearray, SymBytes, SymByteArray))
+    return isinstance(x, (_rbytes, _rbytearray, SymBytes, SymByteArray, SymMemView))
 
 
 def fresh_bytes(name, n):
